@@ -406,7 +406,7 @@ pub fn run(ctx: &mut Ctx) {
     ctx.rule = "paths = 0-5 segments over the full byte range (biased to dots, '%', '/', NUL, UTF-8 and broken UTF-8), every byte rendered raw or as %hh in lower/upper/mixed hex, 1-3 slashes between segments and extra leading/trailing slashes; oracle = reference normaliser (split, drop empty, decode once, refuse dot/non-UTF-8) against a wildcard table and a literal/variable table, plus slash-variant metamorphic relation. non-trivial = path with a dot-segment in an encoded spelling, an encoded slash, a non-UTF-8 segment or a %25 double encoding; distinct by raw path".into();
     ctx.assume("for malformed percent escapes only 'no 5xx / no panic' is asserted (the statement is silent on them)");
     ctx.assume("over the wire every byte outside the URI path character set is percent-encoded; targets hyper refuses by itself are not judged");
-    let n = ctx.tier.pick(40000, 600000);
+    let n = ctx.tier.pick(100000, 2000000);
     ctx.phase("inproc", n, path_case_strategy(), check_inproc);
     ctx.require_frac("inproc", "encoded_dot_segment", "paths", 0.05);
     ctx.require_frac("inproc", "non_utf8", "paths", 0.05);
@@ -419,7 +419,7 @@ pub fn run(ctx: &mut Ctx) {
         let server = start_server(api, DynCtx::default(), Default::default(), None).expect("server");
         Live { addr: server.local_addr(), server }
     };
-    let n = ctx.tier.pick(600, 10000);
+    let n = ctx.tier.pick(1500, 20000);
     {
         let rt = tokio::runtime::Builder::new_current_thread().enable_all().build().unwrap();
         ctx.phase("live", n, proptest::collection::vec(path_case_strategy(), 1..12), |c, st| check_live(&live, &rt, c, st));
